@@ -287,6 +287,19 @@ def janet_tree_s(idx, t, flags, acts):
                                                        " ".join(jseq(t, nparams(sig))), fl(f), ja(v0))
 
 
+def model_line_gs(t, flags, acts, lim, fuel=20000):
+    """guard + task pass: `gstree <limit above the loop> …` (guard tested after the refusals)"""
+    fl, sig, v0 = root_of(flags)
+    a, m, r, _ = SIGS[sig]
+    return "gstree %d %s %d %d %d %d %s %s %s" % (lim, fl or '-', fuel, a, m, r, v0, ",".join("%s:%s" % x for x in acts) or "-", " ".join(toks(t, [])))
+
+
+def janet_tree_gs(idx, t, flags, acts, lim):
+    f, sig, v0 = root_of(flags)
+    return "(defn t%d [] (run-tree-gs %d %d [%s] (fn %s %s) %s %s))" % (idx, idx, lim, " ".join("[:%s %s]" % (k, ja(v)) for k, v in acts), jparams(sig, 0),
+                                                                       " ".join(jseq(t, nparams(sig))), fl(f), ja(v0))
+
+
 def janet_tree(idx, t, flags):
     f, sig, v0 = root_of(flags)
     return "(run-tree %d (fn %s %s) %s %s)" % (idx, jparams(sig, 0), " ".join(jseq(t, nparams(sig))), fl(f), ja(v0))
